@@ -53,6 +53,10 @@ PROP = {  # subject prefix -> (properties, what failed before the repair)
  "nanvar/nanstd of too few integer values": ("C20", "nanvar of a single integer returned -2^63 (nanstd: complex NaN) where NumPy returns NaN"),
  "pretty_cut prints bin edges": ("C20", "pretty_cut printed every edge with one decimal: 3.25 was assigned to the bin printed '0.5 - 3.2'"),
  "var/std clamp the tiny negative variances": ("C16", "std of nearly constant data with a large offset returned NaN (square root of a slightly negative one-pass variance)"),
+ "head/tail/nth with the default index": ("C15 C18", "head/tail/nth(keep_input_index=False) raised AttributeError / IndexError on aligned inputs"),
+ "array-level rolling and cumulative kernels reject": ("C18", "numba.cumsum / rolling_* accepted values, masks or keys of different lengths (out-of-bounds reads)"),
+ "subset_ratio and count_ikey check their masks": ("C18", "subset_ratio label-aligned a misindexed subset_mask; count_ikey accepted a mask with a different pandas index"),
+ "inputs are validated before timestamps": ("C18", "datetime-valued Series with a different index were accepted (index stripped before the check); polars / pyarrow boolean masks of the wrong length were accepted by apply/median/quantile"),
  "apply returns an empty result": ("C05 C09", "median/apply with nothing selected raised IndexError (was known finding K2)"),
 }
 log = subprocess.run(["git", "-C", "/repo", "log", "--format=%h %s", "be63ad5..HEAD"], stdout=subprocess.PIPE).stdout.decode().splitlines()
